@@ -13,6 +13,8 @@ TRUSTED = [
 
 COLLISION = re.compile(r"redeclared|already declared|duplicate (field|method|case|argument)|cannot use _ as (value|type)|other declaration of|is not a type|is not an expression")
 NOAPI = re.compile(r"undefined: \w+")
+NULLCOMP = re.compile(r"cannot convert \w+ \(variable of type Nullable\[\w+\]\) to type \w+|\(type Nullable\[\w+\] has no field or method \w+\)"
+                      r"|\(variable of type (Nullable\[\[\]\w+\]|\[\]\w+)\) as (\[\]\w+|Nullable\[\[\]\w+\]) value")
 
 
 def hx(s):
@@ -88,6 +90,9 @@ def check(ctx):
             diag = re.sub(r"\S*/mod/\w+/", "", broken or fmt)
             if broken and "api=false" in fl and NOAPI.search(broken) and "KF-C01-noApiHandler" in listed:
                 kf_hits["KF-C01-noApiHandler"] = kf_hits.get("KF-C01-noApiHandler", 0) + 1
+                continue
+            if broken and kind == "nullable-component" and NULLCOMP.search(broken) and "KF-C01-nullableComponent" in listed:
+                kf_hits["KF-C01-nullableComponent"] = kf_hits.get("KF-C01-nullableComponent", 0) + 1
                 continue
             names_hit = False
             if stress and broken:
